@@ -65,3 +65,50 @@ Proof. exact sort_angular_strongly_sorted. Qed.
 Theorem C18_assert_unreachable : forall cs x y vals xl yl, plot_rows cs x y vals xl yl <> inr (Escape "AssertionError").
 Proof. exact assert_unreachable. Qed.
 Print Assumptions C18_sort_perm. Print Assumptions C18_sort_sorted. Print Assumptions C18_assert_unreachable.
+
+(* ==== T1 tie (plot vertices) ==== *)
+Require Import PyDict PyLoop PyTermList PyPlots TermGen TermListGen PlotsGen PlotsGenBase PlotsGenSubstitute PlotsGenVertices PlotsGenBounding PlotsGenFacts.
+(* T1 tie: constraints_to_vertices, _substitute_in_termlist, _gen_boundary_constraints, _get_bounding_vertices (Qhull try / four-LP fallback with bounds=(None, None)) and _get_feasible_point of utils/plots.py as translated ON THIS RUN (gen/PlotsGen.v; Qhull, linprog, the row norm and the angular sort are the named primitives plot_prims nrm O) ARE model/Plots.v, about which the theorems above speak. proofs/PlotsGen*.v *)
+Theorem C18_code_constraints_to_vertices :
+  forall (nrm : list Q -> Q) (O : oracles) (cs : list pterm) (x y : var) (vals : pvars) (xl yl : Q * Q),
+       @Forall pterm wft cs ->
+       @plots_constraints_to_vertices (plot_prims nrm O) cs x y vals xl yl =
+       @mmap (list pt) (list Q * list Q) unzip_pts (constraints_to_vertices O cs x y vals xl yl).
+Proof. exact @constraints_to_vertices_eq. Qed.
+Print Assumptions C18_code_constraints_to_vertices.
+Theorem C18_code_substitute_in_termlist :
+  forall (ts : list pterm) (vals : pvars),
+       Forall wft' ts -> plots__substitute_in_termlist ts vals = substitute_in_termlist ts vals.
+Proof. exact @substitute_in_termlist_eq. Qed.
+Print Assumptions C18_code_substitute_in_termlist.
+Theorem C18_code_gen_boundary_constraints :
+  forall (x y : var) (x_lims y_lims : Q * Q),
+       plots__gen_boundary_constraints x y x_lims y_lims = gen_boundary x y x_lims y_lims.
+Proof. exact @gen_boundary_constraints_eq. Qed.
+Print Assumptions C18_code_gen_boundary_constraints.
+Theorem C18_code_get_bounding_vertices :
+  forall (nrm : list Q -> Q) (O : oracles) (rows : list row),
+       two_cols rows ->
+       @plots__get_bounding_vertices (plot_prims nrm O) (@map (list Q * Q) (list Q) (@fst (list Q) Q) rows)
+         (@map (list Q * Q) Q (@snd (list Q) Q) rows) =
+       @mmap (list pt) (list Q * list Q) unzip_pts (bounding_vertices O (@map row row3 row_triple rows)).
+Proof. exact @get_bounding_vertices_eq. Qed.
+Print Assumptions C18_code_get_bounding_vertices.
+Theorem C18_code_get_feasible_point :
+  forall (nrm : list Q -> Q) (O : oracles) (rows : list row),
+       two_cols rows ->
+       @plots__get_feasible_point (plot_prims nrm O) (@map (list Q * Q) (list Q) (@fst (list Q) Q) rows)
+         (@map (list Q * Q) Q (@snd (list Q) Q) rows) true =
+       match centre O (@map row row3 row_triple rows) with
+       | Some p => @ret (list Q) (pt_list p)
+       | None => @raise np_vector ValueErr
+       end.
+Proof. exact @get_feasible_point_eq. Qed.
+Print Assumptions C18_code_get_feasible_point.
+Theorem C18_code_no_assertion :
+  forall (nrm : list Q -> Q) (O : oracles) (cs : list pterm) (x y : var) (vals : pvars) (xl yl : Q * Q),
+       @Forall pterm wft cs ->
+       @plots_constraints_to_vertices (plot_prims nrm O) cs x y vals xl yl <>
+       @inr (list Q * list Q) err (Escape "AssertionError").
+Proof. exact @gen_assert_unreachable. Qed.
+Print Assumptions C18_code_no_assertion.
